@@ -1218,7 +1218,12 @@ class FortranFile:
                 word_range = find_word_in_line(line.lower(), find_word_lower)
                 if word_range.start >= 0:
                     line_no += i + 1
-                    return line_no, word_range
+                    # A leading `&` has been stripped from the continuation
+                    # line, columns must refer to the line in the file
+                    offset = max(0, self.get_line(line_no, pp_content).find(line))
+                    return line_no, Range(
+                        word_range.start + offset, word_range.end + offset
+                    )
         return line_no, word_range
 
     def preprocess(
